@@ -288,12 +288,13 @@ Section Verify.
     ups t (firstn m D) = firstn (i + 1) (ups t D).
   Proof.
     intros Hm Em.
-    rewrite <- (firstn_skipn m D) at 2.
-    rewrite (ups_app T hc t (firstn m D) (skipn m D) (i + 1)) by (rewrite firstn_length; lia).
-    rewrite firstn_app.
-    rewrite (ups_length_mult T hc t (firstn m D) (i + 1)) by (rewrite firstn_length; lia).
-    rewrite Nat.sub_diag, firstn_all2 by (rewrite (ups_length_mult T hc t _ (i + 1)); [lia | rewrite firstn_length; lia]).
-    simpl. rewrite app_nil_r. reflexivity.
+    assert (E : ups t D = ups t (firstn m D) ++ ups t (skipn m D)).
+    { rewrite <- (ups_app T hc t _ _ (i + 1)) by (rewrite firstn_length; lia).
+      rewrite firstn_skipn. reflexivity. }
+    assert (Hl : length (ups t (firstn m D)) = i + 1).
+    { apply (ups_length_mult T hc hempty). rewrite firstn_length. lia. }
+    rewrite E, firstn_app, Hl, Nat.sub_diag, firstn_O, app_nil_r.
+    rewrite <- Hl. symmetry. apply firstn_all.
   Qed.
 
   Lemma top_is_mth L : L <> [] -> top_is L (mth L).
